@@ -61,6 +61,9 @@ class Env:
     def __init__(self, read):
         self.read = read
 
+class Unsupported(Exception):
+    """a construct outside what the transcription models: the case is UNDECIDED (never a verdict)"""
+
 class Sem:
     def __init__(self, clock_domains, replaced_memories):
         self.cds = clock_domains
@@ -151,13 +154,17 @@ class Sem:
             return from_bits(bits, False)
         if isinstance(node, _ArrayProxy):
             k = self.eval(node.key, rd, post)
-            assert k.lo >= 0
             ch = [self.eval(c, rd, post) for c in node.choices]
             lo, hi = min(c.lo for c in ch), max(c.hi for c in ch)
             w = max(sbits(lo), sbits(hi))
             r = ch[-1].ext(w)
             for i in reversed(range(len(ch) - 1)):
                 r = z3.If(k.t == z3.BitVecVal(i, k.w), ch[i].ext(w), r)
+            if k.lo < 0:
+                # Evaluator: choices[min(len - 1, key)] - a negative key is a Python negative index (-1 = last element); below -len the simulator raises
+                if k.lo < -len(ch): raise Unsupported(f"Array key may be below -{len(ch)}: the simulator raises IndexError there")
+                for j in range(max(k.lo, -len(ch)), 0):
+                    r = z3.If(k.t == z3.BitVecVal(j, k.w), ch[j].ext(w), r)
             return V(r, lo, hi)
         if isinstance(node, ClockSignal):
             return self.eval(self.cds[node.cd].clk, rd, post)
@@ -202,9 +209,12 @@ class Sem:
         if isinstance(node, _ArrayProxy):
             k = self.eval(node.key, rd, None)
             n = len(node.choices)
+            if k.lo < -n: raise Unsupported(f"Array key may be below -{n}: the simulator raises IndexError there")
             for i, c in enumerate(node.choices):
                 if i < n - 1: ci = k.t == z3.BitVecVal(i, k.w)
-                else:         ci = z3.UGE(k.t, z3.BitVecVal(i, k.w)) if k.hi >= i else z3.BoolVal(False)
+                elif k.lo >= 0: ci = z3.UGE(k.t, z3.BitVecVal(i, k.w)) if k.hi >= i else z3.BoolVal(False)
+                else:           ci = (k.t >= z3.BitVecVal(i, k.w)) if k.hi >= i else z3.BoolVal(False)           # signed comparison: the key may be negative
+                if k.lo < 0 and i - n >= k.lo: ci = z3.Or(ci, k.t == z3.BitVecVal(i - n, k.w))                  # Python negative index: key -1 selects the last element, ...
                 cc = ci if cond is None else z3.And(cond, ci)
                 self.assign(c, value, rd, mods, cc)
             return
